@@ -250,6 +250,8 @@ class CellCycleController:
         Releases all resources and cleans up.
         """
         self.release_all_resources(ctx)
+        # An ended operation neither waits nor blocks (it may have owned nothing)
+        self.dependency_graph.remove_all_for_agent(ctx.operation_id)
         ctx.enter_phase(Phase.G0)
 
         if ctx.operation_id in self.active_operations:
@@ -276,6 +278,8 @@ class CellCycleController:
         Releases all resources and cleans up.
         """
         self.release_all_resources(ctx)
+        # An ended operation neither waits nor blocks (it may have owned nothing)
+        self.dependency_graph.remove_all_for_agent(ctx.operation_id)
         ctx.enter_phase(Phase.G0)
 
         if ctx.operation_id in self.active_operations:
